@@ -8,6 +8,8 @@ import (
 	"go.uber.org/multierr"
 	"go.uber.org/zap"
 	"go.uber.org/zap/zapcore"
+
+	"verif/zsim"
 )
 
 // richFields returns one of a family of deterministic field lists that
@@ -23,17 +25,17 @@ func richFields(k, a int) []zap.Field {
 		return []zap.Field{zap.Reflect("r", map[string][]int{"k": {a, a + 1}}), zap.Any("st", struct {
 			A int
 			B string
-		}{a, "x"})}
+		}{a, "x"}), zap.Reflect("yj", yieldJSON{a})}
 	case 2:
 		return []zap.Field{zap.Error(errors.New("plain")), zap.NamedError("grp", multierr.Combine(errors.New("g1"), fmt.Errorf("g%d", a))), zap.Errors("errs", []error{errors.New("e1"), nil, errors.New("e2")})}
 	case 3:
-		return []zap.Field{zap.Object("o", c8nested{1 + a%3}), zap.Namespace("ns"), zap.Int("in", a)}
+		return []zap.Field{zap.Object("o", c8nested{1 + a%3}), zap.Object("yo", yieldObj{a}), zap.Namespace("ns"), zap.Int("in", a)}
 	case 4:
 		return []zap.Field{zap.Strings("ss", []string{"a", "b"}), zap.Ints("is", []int{a, 2, 3}), zap.Array("arr", c8arr{1 + a%3}), zap.Durations("ds", []time.Duration{time.Second, time.Duration(a)})}
 	case 5:
 		return []zap.Field{zap.Binary("bin", []byte{1, 2, byte(a)}), zap.ByteString("bs", []byte("bytes")), zap.Float64("f", 1.5+float64(a)), zap.Complex128("c", complex(1, float64(a)))}
 	case 6:
-		return []zap.Field{zap.Time("t", time.Unix(1700000000+int64(a), 0).UTC()), zap.Duration("d", time.Duration(a)*time.Millisecond), zap.Stringer("str", time.Duration(a)*time.Second)}
+		return []zap.Field{zap.Time("t", time.Unix(1700000000+int64(a), 0).UTC()), zap.Duration("d", time.Duration(a)*time.Millisecond), zap.Stringer("str", time.Duration(a)*time.Second), zap.Stringer("ys", yieldStringer{a})}
 	case 7:
 		return []zap.Field{zap.Inline(c8nested{0}), zap.Dict("dict", zap.Int("x", a), zap.String("y", "z")), zap.Uint64("u", uint64(a)<<40)}
 	case 8:
@@ -42,4 +44,31 @@ func richFields(k, a int) []zap.Field {
 	return []zap.Field{zap.Any("any", []any{a, "two", 3.0}), zap.Reflect("chan", nil), zap.Skip(), zap.Int8("i8", int8(a))}
 }
 
-var _ = zapcore.DebugLevel
+// User call-backs are yield points: a marshaler, Stringer or json.Marshaler
+// written by the application may block or be pre-empted, so the scheduler may
+// switch tasks in the middle of a single field being encoded. This is what
+// lets the line oracles see scratch state shared between encoders without a
+// lock, even where zap itself performs no synchronisation operation.
+
+type yieldJSON struct{ N int }
+
+func (y yieldJSON) MarshalJSON() ([]byte, error) {
+	zsim.Yield(zsim.KCall, nil)
+	return []byte(fmt.Sprintf(`{"r":%d}`, y.N)), nil
+}
+
+type yieldObj struct{ N int }
+
+func (y yieldObj) MarshalLogObject(enc zapcore.ObjectEncoder) error {
+	enc.AddInt("before", y.N)
+	zsim.Yield(zsim.KCall, nil)
+	enc.AddInt("after", y.N)
+	return nil
+}
+
+type yieldStringer struct{ N int }
+
+func (y yieldStringer) String() string {
+	zsim.Yield(zsim.KCall, nil)
+	return fmt.Sprintf("str-%d", y.N)
+}
